@@ -16,7 +16,7 @@ Lemma process_entry_ok cfg i st e st' :
   process_entry cfg i st e = Next st' ->
   st_chains st' = fill_from i (e_vsegs e) (e_node i e) (populate_dirs i (e_vsegs e) (st_chains st)).
 Proof.
-  unfold entry_ok, e_node, e_vp, e_vsegs, e_whf, e_plan, process_entry.
+  unfold entry_ok, e_node, e_tgt, e_vp, e_vsegs, e_whf, e_plan, process_entry.
   destruct (clean_str (e_name e)) as [ab sg] eqn:C.
   destruct (entry_vpath e (ab, sg)) as [[vab vsegs] wh] eqn:EV.
   cbn [fst snd].
@@ -34,6 +34,10 @@ Proof.
     match goal with H : (_ <? _)%Z = true |- _ => apply Z.ltb_lt in H end.
     destruct (Z.of_nat (length (e_content e)) >=? cfg_max_bytes cfg)%Z eqn:GE; [apply Z.geb_le in GE; lia|].
     intro E. inversion E. reflexivity.
+  - match goal with H : _ && _ && _ = true |- _ =>
+      apply andb_true_iff in H as [H HT]; apply andb_true_iff in H as [_ HN]; apply negb_true_iff in HT; apply negb_true_iff in HN end.
+    destruct (e_target e) as [|c0 tl] eqn:T; [simpl in HN; discriminate|].
+    rewrite HT. intro E. inversion E. reflexivity.
 Qed.
 
 (* ------------------------------------------------------------------ prefixes *)
@@ -118,6 +122,7 @@ Proof.
     match goal with H : forallb _ (parent_prefixes _) = true |- _ => rewrite forallb_forall in H; apply H; exact HI end.
   - unfold is_dirk, is_reg. destruct (e_kind e); try discriminate.
     + left. repeat split. match goal with H : negb (e_whf e) = true |- _ => apply negb_true_iff in H; exact H end.
+    + right. split; reflexivity.
     + right. split; reflexivity.
   - apply eqb_prop. assumption.
 Qed.
@@ -544,6 +549,10 @@ Proof.
   - destruct (match disk_get (st_disk st) (i, sg) with Some _ => _ | None => _ end); discriminate.
   - destruct (write_file i sg (take_z (cfg_max_bytes cfg) (e_content e)) (st_disk st)); [|discriminate].
     destruct (Z.of_nat (length (e_content e)) >=? cfg_max_bytes cfg)%Z; discriminate.
+  - match goal with H : _ && _ && _ = true |- _ =>
+      apply andb_true_iff in H as [H HT]; apply andb_true_iff in H as [_ HN]; apply negb_true_iff in HT; apply negb_true_iff in HN end.
+    destruct (e_target e) as [|c0 tl] eqn:T; [simpl in HN; discriminate|].
+    rewrite HT. discriminate.
 Qed.
 
 Lemma layer_steps cfg n j done older : forall r est st st',
